@@ -223,3 +223,87 @@ theorem ntruSolveBig_exact (d : Nat) (f g cF cG : List Int) (hf : f.length = 2 ^
   rw [ev_ntruLhs _ hp ρ hρ f g cF cG lF lG, h ρ hρ, ev_cons, ev_replicate_zero]
   simp
 end Falcon.Keygen
+
+namespace Falcon.Keygen
+open Falcon Falcon.FftFlt
+
+/-- what the four guards of the modelled `ntru_gen` leave through -/
+def Accepted (chk : Bool) (n : Nat) (f g cF cG : List Int) : Prop :=
+  (∀ c ∈ f ++ g, (c.natAbs : Int) < fgLimit n) ∧
+  (∀ x ∈ Ntt.ntt (log2 n) (f.map Zq.new), x ≠ 0) ∧
+  ¬ (gsNorm f g > Float.ofBits Gen.gammaBoundBits.toUInt64 * 12289.0) ∧
+  ntruSolveEntry chk f g = .ok (some (cF, cG)) ∧
+  (∀ c ∈ cF ++ cG, c.natAbs ≤ Gen.capGuardLimit)
+
+theorem ntruGenLoop_accepted (chk : Bool) (n : Nat) (seed : List Nat) : ∀ (fuel offset cand : Nat) (f g cF cG : List Int) (k : Nat),
+    ntruGenLoop chk n seed fuel offset cand = .ok (.key f g cF cG k) → Accepted chk n f g cF cG := by
+  intro fuel
+  induction fuel with
+  | zero => intro offset cand f g cF cG k h; simp [ntruGenLoop] at h
+  | succ fuel ih =>
+    intro offset cand f g cF cG k h
+    rw [ntruGenLoop] at h
+    simp only at h
+    cases h1 : KeygenSkel.genPoly chk n (List.drop (offset % 16) (ChaCha.byteStreamFrom seed (offset / 16) 16000)) with
+    | panic e => rw [h1] at h; simp at h
+    | ok r1 =>
+      rw [h1] at h
+      simp only [Res.bind_ok] at h
+      cases r1 with
+      | none => simp at h
+      | some p1 =>
+        obtain ⟨f', rest⟩ := p1
+        simp only at h
+        cases h2 : KeygenSkel.genPoly chk n rest with
+        | panic e => rw [h2] at h; simp at h
+        | ok r2 =>
+          rw [h2] at h
+          simp only [Res.bind_ok] at h
+          cases r2 with
+          | none => simp at h
+          | some p2 =>
+            obtain ⟨g', rest2⟩ := p2
+            simp only at h
+            split at h
+            · exact ih _ _ _ _ _ _ _ h
+            rename_i hlim
+            split at h
+            · exact ih _ _ _ _ _ _ _ h
+            rename_i hinv
+            split at h
+            · exact ih _ _ _ _ _ _ _ h
+            rename_i hgam
+            cases h3 : ntruSolveEntry chk f' g' with
+            | panic e => rw [h3] at h; simp at h
+            | ok r3 =>
+              rw [h3] at h
+              simp only [Res.bind_ok] at h
+              cases r3 with
+              | none => exact ih _ _ _ _ _ _ _ h
+              | some p3 =>
+                obtain ⟨a, b⟩ := p3
+                simp only at h
+                split at h
+                · exact ih _ _ _ _ _ _ _ h
+                rename_i hcap
+                simp only [Res.pure_eq, Res.ok.injEq, Gen1.key.injEq] at h
+                obtain ⟨rfl, rfl, rfl, rfl, _⟩ := h
+                refine ⟨?_, ?_, hgam, h3, ?_⟩
+                · intro c hc
+                  simp only [List.any_eq_true, decide_eq_true_eq, not_exists, not_and] at hlim
+                  have := hlim c hc
+                  omega
+                · intro x hx hx0
+                  apply hinv
+                  simp only [List.any_eq_true, beq_iff_eq]
+                  exact ⟨x, hx, hx0⟩
+                · intro c hc
+                  simp only [List.any_eq_true, decide_eq_true_eq, not_exists, not_and] at hcap
+                  have := hcap c hc
+                  omega
+
+/-- every key the model of `ntru_gen` returns went through all four guards -/
+theorem ntruGen_accepted (chk : Bool) (n : Nat) (seed : List Nat) (f g cF cG : List Int) (k : Nat)
+    (h : ntruGen chk n seed = .ok (.key f g cF cG k)) : Accepted chk n f g cF cG :=
+  ntruGenLoop_accepted chk n seed _ _ _ f g cF cG k h
+end Falcon.Keygen
